@@ -11,6 +11,7 @@ import RbModel.Lemmas.Norm
 import RbModel.Lemmas.NormBlock
 import RbModel.Gen.Norm
 import RbModel.Gen.NormRef
+import RbModel.Lemmas.NormMarks
 
 namespace RbModel.Props.C09
 open RbModel.Norm RbModel.Gen
@@ -443,5 +444,12 @@ theorem C09_decompose_equiv (U : UData) (F : Font) (shortest : Bool) (fuel c : N
 
 example : ∃ r, decompose genU { glyph := fun c => if c = 0x41 ∨ c = 0x300 then some 1 else none } true genFuel 0xC0 = some r ∧
     r ≠ [] := ⟨[(0x41, 1), (0x300, 1)], by decide +kernel, by simp⟩
+
+/-- **The round with the shaper's `reorder_marks` slot** (`NormMarks.round2With`, the model the stream
+    `norm-run-shaper` compares with the crate under the Arabic shaper record) is, for a shaper without a callback, the
+    round `Norm.round2` the theorems above are about. -/
+theorem C09_round2_callback_slot (K : Norm.Consts) (pre l : List Norm.Info) :
+    Norm.round2With K none pre l = .ok (Norm.round2 K pre l) :=
+  Norm.round2With_none K pre l
 
 end RbModel.Props.C09
